@@ -53,6 +53,10 @@ def wrapPolys : List (List (List (Pt α))) → Option (Geom α)
 /-- tail of the `Bound` case -/
 def wrapBound (r : Bound α) : Option (Geom α) := if r.isEmpty then none else some (.bound r.lo r.hi)
 
+/-- the `Bound` case: an empty argument gives nil (`if g.IsEmpty() { return nil }`: `clip.Bound` would
+    treat it as "no constraint" and hand back the clip box), otherwise the tail on the intersection `r` -/
+def wrapBoundArg (g r : Bound α) : Option (Geom α) := if g.isEmpty then none else wrapBound r
+
 /-- tail of the `Collection` case: nil / single survivor unwrapped / collection -/
 def wrapColl : List (Geom α) → Option (Geom α)
   | [] => none
@@ -138,11 +142,13 @@ theorem clip_multiPolygon' (eb box : Bound α) (mp : List (List (List (Pt α))))
 
 theorem clip_bound' (eb box : Bound α) (a b : Pt α) :
     Clip.geometry eb box (.bound a b) =
-      clipPre eb box (.bound a b) (some (wrapBound (Clip.clipBound box ⟨a, b⟩))) := by
-  simp only [Clip.geometry, clipPre, wrapBound, Core.bound]
+      clipPre eb box (.bound a b) (some (wrapBoundArg ⟨a, b⟩ (Clip.clipBound box ⟨a, b⟩))) := by
+  simp only [Clip.geometry, clipPre, wrapBoundArg, wrapBound, Core.bound]
   split
   · rfl
-  · split <;> rfl
+  · split
+    · rfl
+    · split <;> rfl
 
 theorem clip_collect_eq (eb box : Bound α) (gs : List (Geom α)) :
     Clip.geometry.collect eb box gs = (gs.mapM (Clip.geometry eb box)).map (·.filterMap id) := by
